@@ -160,6 +160,9 @@ type Run struct {
 	wgs map[*Value]int64
 	onces map[*Value]bool
 	curFrame *frame
+	stubs    map[string]bool
+	clockConcrete bool
+	viper    map[string]Value
 	nowCount int
 	lastNow *Term
 	envChans []*Chan
